@@ -77,6 +77,7 @@ func wideHistories(run *hx.Run, n, maxOps int) {
 			run.Extra["wide_queries"] = len(qs)
 		}
 		sw := newSweep(w.Store(), qs)
+		sw.twice, sw.run = true, run
 		g := &gen{r: r, u: u, fixedTime: time.Unix(1700000000, 0).UTC()}
 		var descs []string
 		replay := func() []string { return append([]string(nil), descs...) }
@@ -87,13 +88,16 @@ func wideHistories(run *hx.Run, n, maxOps int) {
 			idx += 1 + uint64(r.Intn(100)/85*r.Intn(4))
 			g.idx = idx
 			var e entry
-			if len(descs) == 0 && profile != "kv" && r.Chance(60) {
+			if len(descs) == 0 && r.Chance(80) {
+				// the intention format is decided once, by the leader's one-way migration, before anything else
+				e = g.intentionFormat()
+			} else if len(descs) <= 1 && profile != "kv" && r.Chance(60) {
 				e = g.vipFlag()
 			} else {
 				e = g.xnext(profile)
 			}
 			e.idx = idx
-			before := w.Store().VerifStoreTables()
+			before, gwBefore := w.Store().VerifStoreTables(), gatewayRows(w)
 			var bs []*blocked
 			if e2e {
 				for j, q := range qs {
@@ -103,14 +107,14 @@ func wideHistories(run *hx.Run, n, maxOps int) {
 				}
 			}
 			res := applyEntry(w, e)
-			after := w.Store().VerifStoreTables()
+			after, gwAfter := w.Store().VerifStoreTables(), gatewayRows(w)
 			descs = append(descs, fmt.Sprintf("@%d %s => %s", e.idx, e.desc, clip(res, 80)))
 			run.Tag("wide-op:" + e.kind)
 			if strings.HasPrefix(res, "panic:") {
 				run.Tag("wide-op-panicked:" + e.kind)
 			}
 			wi := &writeInfo{kind: e.kind, reap: e.kind == "tombstone", desc: e.desc}
-			wi.shape = func(q *query, ob, oa obs) string { return shapeOf(q, e.trees, &before, &after, ob, oa) }
+			wi.shape = func(q *query, ob, oa obs) string { return shapeOfWide(q, e.trees, &before, &after, gwBefore, gwAfter, ob, oa) }
 			sw.across(run, w.Store(), wi, replay, func(v *verdict) {
 				if v.changed {
 					nontrv = true
@@ -123,6 +127,19 @@ func wideHistories(run *hx.Run, n, maxOps int) {
 		}
 		run.Case("wide\n"+strings.Join(descs, "\n"), nontrv)
 	}
+}
+
+// gatewayRows: the gateway-services table as gateway|service|kind rows
+func gatewayRows(w *storex.World) []string {
+	_, gs, err := w.Store().DumpGatewayServices(nil)
+	if err != nil {
+		return nil
+	}
+	out := make([]string, 0, len(gs))
+	for _, g := range gs {
+		out = append(out, g.Gateway.Name+"|"+g.Service.Name+"|"+string(g.GatewayKind))
+	}
+	return out
 }
 
 // applyEntry hands one committed entry to the real FSM.
